@@ -35,9 +35,10 @@ CONSTANTS NodeId, PoolN, WalkLen,
           NT, NR, Objs, ObjOrder, V0, TC0, RC0, Sync0,    \* P
           Tbl, Depth,                                     \* E
           SrvNode,                                        \* C
-          Groups, ProbeLetters, CfgName
-VARIABLES s, hist, grp, gh
-vars == <<s, hist, grp, gh>>
+          Groups, ProbeLetters, CfgName,
+          NRand, RandLetter(_)                            \* letters with parameters drawn at random from wide value ranges
+VARIABLES s, hist, grp, gh, rl
+vars == <<s, hist, grp, gh, rl>>
 
 NG == INSTANCE CoNodeGen WITH n <- 0, hist <- <<>>, prev <- 0, gh <- 0, Letters <- {}, ProbeLetters <- <<>>, Walk <- FALSE, WalkLen <- 0, EvCap <- 0
 PG == INSTANCE CoPdoGen WITH p <- 0, hist <- <<>>, prev <- 0, gh <- 0, Letters <- {}, ProbeLetters <- <<>>, Probe2Letters <- <<>>, Walk <- FALSE, WalkLen <- 0
@@ -71,6 +72,9 @@ Apply(ss, l) ==
          \* (a client transfer cut off by the reset: whether its completion is signalled is not ruled on)
          THEN R3(a.ev, ResetAll(ss, a.r.n), IF ss.c.busy THEN FREE ELSE a.r.out \o EG!Chg1001(ss.e, [ss.e EXCEPT !.act = {}]))
          ELSE R3(a.ev, SyncMode([ss EXCEPT !.n = a.r.n]), a.r.out)
+    [] l[1] = "apireset" ->  \* CONmtReset called by the application (any mode, also while it holds the node in INITIALISATION: no boot-up then)
+         LET a == NG!ResetCom(ss.n) IN
+         R3(<<"nmt_reset", l[2]>>, SyncMode(ResetAll(ss, a.n)), IF ss.c.busy THEN FREE ELSE a.out \o EG!Chg1001(ss.e, [ss.e EXCEPT !.act = {}]))
     [] l[1] \in {"setmode", "bootup"} -> LET a == NG!Apply(ss.n, l) IN R3(a.ev, SyncMode([ss EXCEPT !.n = a.r.n]), a.r.out)
     [] l[1] = "tick" ->      \* every armed action counts down; those due run in this processing step
          LET a == NG!Tick(ss.n)  b == PG!Tick(ss.p)  c == CG!Tick(ss.c) IN
@@ -105,10 +109,16 @@ StepOk(s0, l, a) ==
 StepRec(ev, x) == [e |-> ev, x |-> x]
 Do(l) == LET a == Apply(s, l) IN
          /\ s' = a.s /\ gh' = StepOk(s, l, a) /\ hist' = Append(hist, StepRec(a.ev, a.x)) /\ grp' = 0
-Init == s = S0 /\ hist = <<>> /\ grp = 0 /\ gh = TRUE
-\* a walk step first picks a group of letters, then a letter of it (balanced services)
-Next == IF grp = 0 THEN \E g \in 1..Len(Groups) : grp' = g /\ UNCHANGED <<s, hist, gh>>
-        ELSE \E l \in Groups[grp] : Do(l)
+Init == s = S0 /\ hist = <<>> /\ grp = 0 /\ gh = TRUE /\ rl = <<>>
+\* a walk step first picks a group of letters, then a letter of it (balanced services).  Groups above Len(Groups) are the
+\* RANDOM letters: their parameters (payload bytes, times, node ids, object values) are drawn with RandomElement from the whole
+\* value range when the group is chosen and kept in rl, so that the letter is evaluated once (simulation only: RandomElement
+\* has no meaning in breadth-first search)
+Next == IF grp = 0 THEN \E g \in 1..(Len(Groups) + NRand) :
+                          /\ grp' = g /\ UNCHANGED <<s, hist, gh>>
+                          /\ rl' = (IF g > Len(Groups) THEN RandLetter(g - Len(Groups)) ELSE <<>>)
+        ELSE IF grp > Len(Groups) THEN Do(rl) /\ rl' = <<>>
+        ELSE \E l \in Groups[grp] : Do(l) /\ rl' = <<>>
 InvFull == gh
 RECURSIVE RunLetters(_, _, _)
 RunLetters(ss, ls, acc) ==
